@@ -33,8 +33,7 @@ Proof.
   - intros c ck ops Hc W P. apply H1; [exact (proj1 (inv_default c ck Hc))|exact W|exact P].
   - intros s o I W P. pose proof (C04.Properties.C04_step_outcome s o I W P) as H.
     destruct (pre_ok s o); [destruct H as (s' & E & _); exact (ok_no_ub _ _ _ E)|exact (contract_no_ub _ _ H)].
-  - intros a b Ia Ib Hc. destruct (C04.Properties.C04_swap_both a b Ia Ib Hc) as (a' & b' & E & _).
-    exact (ok_returns_ok _ _ _ E).
+  - intros a b Ia Ib Hc. pose proof (C04.Properties.C04_swap_both a b Ia Ib Hc) as HH. ok_from HH.
 Qed.
 Print Assumptions C02_inplace_string_history_safe.
 
@@ -53,7 +52,7 @@ Theorem C02_inplace_string_queries_safe :
   (forall s, inv s -> returns_ok (strlen_m (arr_view (buf s)))).
 Proof.
   split; [|split; [|split; [|split; [|split; [|split; [|split]]]]]].
-  - intros f s n pos I N P. exact (ok_returns_ok _ _ _ (C04.Properties_query.C04_search_all_overloads f s n pos I N P)).
+  - intros f s n pos I N P. (pose proof (C04.Properties_query.C04_search_all_overloads f s n pos I N P) as HH; ok_from HH).
   - intros s c I C. pose proof (C04.Properties_query.C04_compare_all_overloads s c I C) as H.
     unfold res_opt in H. destruct (compare_call_m s c) as [x| |k|].
     + eapply ok_no_ub; reflexivity.
@@ -71,7 +70,7 @@ Proof.
     destruct (contents s) as [|x l] eqn:E.
     + destruct (F2 eq_refl) as [A B]. split; apply contract_no_ub; assumption.
     + assert (N : x :: l <> []) by discriminate. destruct (F1 N) as [A B]. split; eapply ok_no_ub; eassumption.
-  - intros s I. destruct (C04.Properties_query.C04_c_str_valid s I) as (n & E & _). exact (ok_returns_ok _ _ _ E).
+  - intros s I. pose proof (C04.Properties_query.C04_c_str_valid s I) as HH. ok_from HH.
 Qed.
 Print Assumptions C02_inplace_string_queries_safe.
 End Str.
@@ -108,7 +107,7 @@ Proof.
   - intros ck a b p1 c1 p2 c2 Ha Hb H1 H2 H3 H4.
     destruct (C ck a b p1 c1 p2 c2 Ha Hb H1 H2 H3 H4) as (B1 & B2 & B3 & B4 & B5 & B6 & B7 & B8 & B9 & B10 & B11 & B12 & B13).
     repeat split; apply D; assumption.
-  - intros a Ha. destruct (C08.Properties.C08_cstr_view a Ha) as (n & E & _). exact (ok_returns_ok _ _ _ E).
+  - intros a Ha. pose proof (C08.Properties.C08_cstr_view a Ha) as HH. ok_from HH.
 Qed.
 Print Assumptions C02_string_view_reads_inside.
 End View.
